@@ -163,13 +163,13 @@ func (g *gctx) lin(v ssa.Value) (lin, bool) {
 	case *ssa.Field:
 		if base, ok := kvBase(x.X); ok {
 			if f := FieldOf(x); f != nil {
-				return linAtom(base + "." + f.Name()), true
+				return linAtom(base + "." + NameOf(f)), true
 			}
 		}
 		// field of a receiver struct value (c.begin)
 		if f := FieldOf(x); f != nil {
 			if p, ok := x.X.(*ssa.Parameter); ok {
-				return linAtom(p.Name() + "." + f.Name()), true
+				return linAtom(p.Name() + "." + NameOf(f)), true
 			}
 		}
 		return linAtom(x.Name()), true
@@ -178,7 +178,7 @@ func (g *gctx) lin(v ssa.Value) (lin, bool) {
 			if fa, ok := x.X.(*ssa.FieldAddr); ok {
 				if base, ok := kvBase(fa.X); ok {
 					if f := FieldOf(fa); f != nil {
-						return linAtom(base + "." + f.Name()), true
+						return linAtom(base + "." + NameOf(f)), true
 					}
 				}
 				if f := FieldOf(fa); f != nil {
@@ -188,7 +188,7 @@ func (g *gctx) lin(v ssa.Value) (lin, bool) {
 							for _, r := range *refs {
 								if st, ok := r.(*ssa.Store); ok && st.Addr == ssa.Value(al) {
 									if p, ok := st.Val.(*ssa.Parameter); ok {
-										return linAtom(p.Name() + "." + f.Name()), true
+										return linAtom(p.Name() + "." + NameOf(f)), true
 									}
 								}
 							}
@@ -201,7 +201,7 @@ func (g *gctx) lin(v ssa.Value) (lin, bool) {
 	case *ssa.Call:
 		// v.width() of a cutExpr value: a named atom that the ghost of v
 		// resolves to hi - lo (see ghosts)
-		if f := x.Call.StaticCallee(); f != nil && !x.Call.IsInvoke() && f.Name() == "width" && len(x.Call.Args) == 1 {
+		if f := x.Call.StaticCallee(); f != nil && !x.Call.IsInvoke() && NameOf(f) == "width" && len(x.Call.Args) == 1 {
 			return linAtom("width(" + x.Call.Args[0].Name() + ")"), true
 		}
 		return linAtom(x.Name()), true
@@ -316,7 +316,7 @@ func (g *gctx) ghosts(v ssa.Value, depth int) []ghost {
 		}
 		return out
 	case *ssa.Field:
-		if f := FieldOf(x); f != nil && f.Name() == "Val" {
+		if f := FieldOf(x); f != nil && NameOf(f) == "Val" {
 			if base, ok := kvBase(x.X); ok {
 				return []ghost{{lo: linAtom(base + ".Low"), hi: linAtom(base + ".High"), kv: base}}
 			}
@@ -324,7 +324,7 @@ func (g *gctx) ghosts(v ssa.Value, depth int) []ghost {
 	case *ssa.UnOp:
 		if x.Op == token.MUL {
 			if fa, ok := x.X.(*ssa.FieldAddr); ok {
-				if f := FieldOf(fa); f != nil && f.Name() == "Val" {
+				if f := FieldOf(fa); f != nil && NameOf(f) == "Val" {
 					if base, ok := kvBase(fa.X); ok {
 						return []ghost{{lo: linAtom(base + ".Low"), hi: linAtom(base + ".High"), kv: base}}
 					}
@@ -345,7 +345,7 @@ func (g *gctx) ghosts(v ssa.Value, depth int) []ghost {
 							for _, r2 := range *rr {
 								if st, ok := r2.(*ssa.Store); ok && st.Addr == ssa.Value(fa) {
 									l, okl := g.lin(st.Val)
-									switch f.Name() {
+									switch NameOf(f) {
 									case "begin":
 										b, hb = l, okl
 									case "end":
@@ -366,7 +366,7 @@ func (g *gctx) ghosts(v ssa.Value, depth int) []ghost {
 		}
 	case *ssa.Call:
 		f := x.Call.StaticCallee()
-		if f != nil && !x.Call.IsInvoke() && (f.Name() == "cutBegin" || f.Name() == "cutEnd") && len(x.Call.Args) == 2 {
+		if f != nil && !x.Call.IsInvoke() && (NameOf(f) == "cutBegin" || NameOf(f) == "cutEnd") && len(x.Call.Args) == 2 {
 			L, ok := g.lin(x.Call.Args[1])
 			if !ok {
 				return []ghost{{why: "cut length is not linear"}}
@@ -392,7 +392,7 @@ func (g *gctx) ghosts(v ssa.Value, depth int) []ghost {
 					}
 					L = rest.add(a.hi.add(a.lo, -1), k)
 				}
-				if f.Name() == "cutBegin" {
+				if NameOf(f) == "cutBegin" {
 					n.lo = a.hi.add(L, -1)
 				} else {
 					n.hi = a.lo.add(L, 1)
@@ -421,7 +421,7 @@ func checkGhost(c *Ctx) {
 				continue
 			}
 		}
-		name := Origin(f).Name()
+		name := NameOf(Origin(f))
 		if (name != "Add" && name != "Put") || len(cs.Common().Args) != 4 {
 			continue
 		}
@@ -462,7 +462,7 @@ func checkGhost(c *Ctx) {
 	np := 0
 	for _, cs := range Calls(ld) {
 		f := Callee(cs.Common())
-		if f == nil || f.Name() != "expr" || f.Signature.Recv() == nil || len(cs.Common().Args) != 1 {
+		if f == nil || NameOf(f) != "expr" || f.Signature.Recv() == nil || len(cs.Common().Args) != 1 {
 			continue
 		}
 		call := cs.Instr.(*ssa.Call)
@@ -586,10 +586,10 @@ func checkGhost(c *Ctx) {
 				if _, isLit := fa.X.(*ssa.Alloc); !isLit {
 					continue
 				}
-				switch f.Name() {
+				switch NameOf(f) {
 				case "begin", "end":
 					if l, ok := gg.lin(stI.Val); ok {
-						got[f.Name()] = l
+						got[NameOf(f)] = l
 					}
 				case "ex":
 					if l, ok := gg.lin(stI.Val); ok && l.eq(linAtom(recv+".ex")) {
@@ -637,7 +637,7 @@ func checkGhost(c *Ctx) {
 				}
 				// or the receiver's own width(), which is end - begin
 				if wc, ok := Unwrap(cs.Common().Args[1]).(*ssa.Call); ok && !wc.Call.IsInvoke() && len(wc.Call.Args) == 1 {
-					if wf := wc.Call.StaticCallee(); wf != nil && wf.Name() == "width" && wf.Blocks != nil && (IsParam(wc.Call.Args[0], ex.Params[0]) || Unwrap(wc.Call.Args[0]) == ssa.Value(ex.Params[0])) {
+					if wf := wc.Call.StaticCallee(); wf != nil && NameOf(wf) == "width" && wf.Blocks != nil && (IsParam(wc.Call.Args[0], ex.Params[0]) || Unwrap(wc.Call.Args[0]) == ssa.Value(ex.Params[0])) {
 						wg := &gctx{c, wf}
 						wr := wf.Params[0].Name()
 						for _, b := range wf.Blocks {
